@@ -78,13 +78,23 @@ Read == /\ ~done
         /\ UNCHANGED <<inp, cfg0, cfg, nflips, nskips, nstreams>>
 
 Flip == /\ ~done /\ nflips < MaxFlips
-        /\ \E key \in FlipKeys :
+        /\ \E key \in FlipKeys \ {"helpers"} :
              /\ cfg' = [cfg EXCEPT ![key] = ~cfg[key]]
              /\ hist' = Append(hist, <<"cfg", CfgBits(cfg'), Row([NoneObs EXCEPT !.k = "Cfg", !.after = BufferPosition(st)], st.errpos)>>)
              /\ alt' = [alt EXCEPT !.hist = Append(alt.hist, <<"cfg", CfgBits(cfg'), Row([NoneObs EXCEPT !.k = "Cfg", !.after = BufferPosition(alt.st)], alt.st.errpos)>>)]
         /\ nflips' = nflips + 1
         /\ last' = [last EXCEPT !.op = "flip"]
         /\ UNCHANGED <<inp, cfg0, st, lastStart, nskips, nstreams, done>>
+
+\* the two shorthands of Config, called between two reads (enabled when "helpers" is among the flip keys)
+Helper == /\ ~done /\ nflips < MaxFlips /\ "helpers" \in FlipKeys
+          /\ \E h \in {"trim_text", "enable_all_checks"}, b \in BOOLEAN :
+               /\ cfg' = IF h = "trim_text" THEN TrimTextHelper(cfg, b) ELSE EnableAllChecksHelper(cfg, b)
+               /\ hist' = Append(hist, <<"hlp", CfgBits(cfg'), Row([NoneObs EXCEPT !.k = "Cfg", !.after = BufferPosition(st)], st.errpos), h, IF b THEN 1 ELSE 0>>)
+               /\ alt' = [alt EXCEPT !.hist = Append(alt.hist, <<"hlp", CfgBits(cfg'), Row([NoneObs EXCEPT !.k = "Cfg", !.after = BufferPosition(alt.st)], alt.st.errpos), h, IF b THEN 1 ELSE 0>>)]
+          /\ nflips' = nflips + 1
+          /\ last' = [last EXCEPT !.op = "flip"]
+          /\ UNCHANGED <<inp, cfg0, st, lastStart, nskips, nstreams, done>>
 
 SkipRow(r) ==
     IF r.ok THEN <<"Span", "", 0, 0, 0, 0, 0, BufferPosition(r.st), r.st.errpos, r.start, r.end, CfgBits(cfg)>>
@@ -116,7 +126,7 @@ Stream == /\ ~done /\ nstreams < MaxStreams /\ st.ps # "Done"
           /\ nstreams' = nstreams + 1
           /\ UNCHANGED <<inp, cfg0, cfg, nflips, nskips, done>>
 
-Next == Read \/ Flip \/ Skip \/ Stream
+Next == Read \/ Flip \/ Helper \/ Skip \/ Stream
 Spec == Init /\ [][Next]_ovars
 
 ---------------------------------------------------------------------------
